@@ -510,6 +510,8 @@ class Gen:
             nm = (cl.c.ping() if cl and rng.random() < 0.5 else (cl.c.data(b"\x5a" + bytes(rng.randrange(256) for _ in range(40)))[0] if cl else b"paaaa." + sub))
             good = P.query(self.dnsid(), nm, rng.choice(QTYPES), edns=rng.random() < 0.5)
             muts = wiregen.mutations(rng, good, 6)
+            if rng.random() < 0.06:
+                muts = (wiregen.pointer_cycle(rng, good, 8100) if rng.random() < 0.5 else wiregen.pointer_chains(rng, good, (rng.choice([200, 3000, 8100]),))) or muts   # very long chains of backward pointers (stack depth)
             msg = rng.choice(muts) if muts else good
         elif k < 0.70:
             # raw-mode frames of all lengths and commands, for every userid
